@@ -52,6 +52,8 @@ pub fn c06_configs(tier: Tier) -> Vec<OutCfg> {
             vec![SK::Q1Id(5), SK::Q1Id(5), SK::Q1],
             vec![SK::Q1Big, SK::Q1],
             vec![SK::Q1, SK::Q1Big, SK::Q2Rel],
+            vec![SK::Q1BigId(5), SK::Q1Id(5)],
+            vec![SK::Q1BigId(5), SK::Q1Id(5), SK::Q1Id(5)],
             vec![SK::Q2Hold, SK::Q1, SK::Q1],
             vec![SK::Q2Rel, SK::Q1Loop(2)],
         ];
@@ -61,7 +63,7 @@ pub fn c06_configs(tier: Tier) -> Vec<OutCfg> {
         }
         for senders in conv {
             let mut ep = ep_for(EpCfg::new(ver, role), 8, false);
-            let big = senders.contains(&SK::Q1Big);
+            let big = senders.iter().any(|k| matches!(k, SK::Q1Big | SK::Q1BigId(_)));
             if big {
                 match (ver, role) {
                     (Ver::V5, Role::Client) => ep.client_connack_props.push((0x27, crate::refmqtt::PVal::U32(100))),
